@@ -16,9 +16,17 @@ func genCases(seed int64, n int, fn func(name string, data []byte)) {
 	rng := rand.New(rand.NewPCG(uint64(seed), 0xC14))
 	g := gen.New(rng, getWorld().defs)
 	for i := 0; i < n; i++ {
-		switch rng.IntN(4) {
+		switch rng.IntN(5) {
 		case 0:
 			fn(fmt.Sprintf("gen-payment-%d-%d", seed, i), genPayment(rng, i))
+		case 1:
+			// documents whose rows cancel out to a total of exactly zero, prices including tax
+			q := 2 + rng.IntN(300)
+			pr := dec.New(1+rng.Int64N(999), 2)
+			tot := dec.New(pr.U.Int64()*int64(q), 2)
+			doc := fmt.Sprintf(`{"$schema":"https://gobl.org/draft-0/bill/invoice","uuid":"0190a1b2-c3d4-7e5f-8a9b-0c1d2e3f4a5b","code":"Z-%d","issue_date":"2024-06-01","currency":"EUR","tax":{"prices_include":"VAT"},"supplier":{"name":"A","tax_id":{"country":"ES","code":"B98602642"}},"lines":[{"quantity":"%d","item":{"name":"x","price":"%s"},"taxes":[{"cat":"VAT","rate":"%s"}]},{"quantity":"1","item":{"name":"y","price":"-%s"},"taxes":[{"cat":"VAT","rate":"%s"}]}]}`,
+				i, q, pr.String(), []string{"standard", "reduced", "super-reduced"}[rng.IntN(3)], tot.String(), []string{"standard", "reduced", "super-reduced"}[rng.IntN(3)])
+			fn(fmt.Sprintf("gen-zero-total-%d-%d", seed, i), []byte(doc))
 		default:
 			p := gen.Profile{Schema: []string{"bill/invoice", "bill/order", "bill/delivery"}[rng.IntN(3)], MaxLines: 6, Preset: rng.IntN(2) == 0, TaxFocus: rng.IntN(2) == 0, FixedAtCur: rng.IntN(2) == 0}
 			if rng.IntN(3) == 0 {
